@@ -1,6 +1,6 @@
 package c03
 
-// Scenarios S1..S5 of DESIGN §4 C03 (+ S5b, S7). Every scenario has exactly one
+// Scenarios S1..S5 of DESIGN §4 C03 (+ S5b, S7, S8). Every scenario has exactly one
 // traced phase (startT): that is where kill points are enumerated; phases
 // before it only build the state the traced phase starts from. C11 traces all
 // phases of the same scenarios.
@@ -157,6 +157,34 @@ var Scenarios = []Scenario{
 			"w big", "v sync-wait",
 			"v follow-wait @0",
 			"v follow-stop",
+			"v close",
+			"stop",
+		),
+	},
+	{
+		Name: "S8",
+		Doc:  "re-upload of an already published snapshot fails mid-stream (upload stream broken by the victim's client wrapper), then a failing compaction upload; restores in between",
+		Steps: steps(
+			"start",
+			"w small", "v sync-wait",
+			"w multi", "v sync-wait",
+			"v compact 1",
+			"v snapshot",
+			"v retention l0",
+			"w small", "v sync-wait",
+			"v snapshot",
+			"v retention snap 1",
+			"v close",
+			"stop",
+			"startT",
+			"v sync-wait",
+			"v snapshot",           // published at the current position ...
+			"v? snapshot-fail 700", // ... and written again under the same name; this time the stream breaks
+			"v restore out1",       // the replica must still be restorable
+			"w small", "v sync-wait",
+			"v? compact-fail 1 150", // failing upload of a new name
+			"v restore out2",
+			"v compact 1",
 			"v close",
 			"stop",
 		),
